@@ -37,7 +37,7 @@ def cases(tier, seed):
 
 def targets(tier):
     k = 1 if tier == "quick" else 10
-    t = {"permuted_runs_compared": 400 * k, "batches_compared": 6000 * k, "nndvi_unequal_size_pairs": 300 * k}
+    t = {"permuted_runs_compared": 400 * k, "batches_compared": 6000 * k, "nndvi_unequal_size_pairs": 200 * k}
     for name in DETS:
         t["histories_with_drift:" + name] = 20 * k
     t["db3_full_traces"] = 15 * k
